@@ -101,6 +101,11 @@ def tlEngine (ss : TlState) (args : List String) : TlState × String :=
     | some s, some now, some [caller, r], some idl =>
       if tlFitsI now && caller < 6 && r < 3 && idl.length ≤ 10 && idl.all (· < 10) then tlReply ss sid s (approveBatch s now caller r idl) else (ss, "bad-op")
     | _, _, _, _ => (ss, "bad-op")
+  | ["cancelb", sid, now, caller, r, rr, ids] =>
+    match tlLookup ss sid, pInt now, allNat [caller, r, rr], (if ids = "-" then some [] else (ids.splitOn ",").mapM pNat) with
+    | some s, some now, some [caller, r, rr], some idl =>
+      if tlFitsI now && caller < 6 && r < 3 && rr < 6 && rr != caller && idl.length ≤ 10 && idl.all (· < 10) then tlReply ss sid s (cancelBatch s caller r rr idl) else (ss, "bad-op")
+    | _, _, _, _ => (ss, "bad-op")
   | ["approve", sid, now, caller, id, r] =>
     match tlLookup ss sid, pInt now, allNat [caller, id, r] with
     | some s, some now, some [caller, id, r] =>
